@@ -233,7 +233,8 @@ class PartBuilder:
             n = S.Note(step=step, octave=octave, alter=alter if alter != 0 or rng.random() < 0.5 else None,
                        id=self.new_id(), voice=v + self.voice_base, staff=staff, symbolic_duration=dict(sym))
             if "articulations" in self.f and rng.random() < 0.15:
-                n.articulations = [rng.choice(["staccato", "accent", "tenuto"])]
+                # one mark, or several on one note (they are not mutually exclusive)
+                n.articulations = sorted(rng.sample(["staccato", "accent", "tenuto"], rng.choice([1, 1, 2, 3])))
             part.add(n, t, t + d)
             notes.append(n)
             self.all_notes.append(n)
